@@ -42,7 +42,7 @@ func mkbuf(r *hx.Rng, n int, content []byte) buf {
 	if n < 0 {
 		return buf{nil}
 	}
-	back := bytes.Repeat([]byte{0xCC}, n+24)
+	back := bytes.Repeat([]byte{0xCC}, n+96) // spare capacity beyond any key/signature size: an append or in-place write shows
 	if content != nil {
 		copy(back, content)
 	} else {
@@ -450,6 +450,22 @@ func keyObjects(tr *hx.Trace, r *hx.Rng, thorough bool) {
 		tr.Emit(map[string]interface{}{"op": "genkey", "avail": 32, "chunk": -1, "failing": false, "err": err != nil, "consumed": 32,
 			"hasKey":   pub != nil && priv != nil,
 			"coherent": err == nil && bytes.Equal(ed25519.NewKeyFromSeed(priv.Seed()), priv) && bytes.Equal(priv[32:], pub), "cfg": *fCfg})
+
+		// --- a seed with spare capacity: the key must not alias the caller's buffer, which must stay untouched
+		{
+			buf := bytes.Repeat([]byte{0xCC}, 128)
+			copy(buf, r.Bytes(32))
+			seed := buf[:32]
+			snap := append([]byte{}, buf...)
+			k2 := ed25519.NewKeyFromSeed(seed)
+			want := stded.NewKeyFromSeed(append([]byte{}, seed...))
+			untouched := bytes.Equal(buf, snap)
+			for i := range buf { // the caller reuses its buffer
+				buf[i] ^= 0x3c
+			}
+			tr.Emit(map[string]interface{}{"op": "access", "publicOk": bytes.Equal(k2[32:], want[32:]), "seedOk": bytes.Equal(k2[:32], want[:32]),
+				"roundTrip": untouched, "fresh": bytes.Equal(k2, want), "what": "NewKeyFromSeed(seed with spare capacity)", "cfg": *fCfg})
+		}
 
 		// --- accessors
 		k := ed25519.NewKeyFromSeed(r.Bytes(32))
